@@ -427,8 +427,22 @@ func Fill(r *coqfmt.Rng, t, tt reflect.Type, c []M, num, den int) Filled {
 	// oracle: every text against every distinct cast target
 	var entries []string
 	seen := map[string]bool{}
+	// the by-name specification asks about the ORIGINAL leaf types, which differ
+	// from the types at the string-cast stage where an earlier stage rewrote the
+	// element struct of a slice leaf (alias copies, tags): add those as well
+	all := targets
+	if k >= 0 && len(texts) > 0 {
+		var plain []M
+		for _, m := range c[:k] {
+			if m.Kind == "flatten" {
+				plain = append(plain, m)
+			}
+		}
+		_, orig := castTargets(t, append(plain, c[k]))
+		all = append(append([]reflect.Type{}, targets...), orig...)
+	}
 	for _, s := range texts {
-		for _, tg := range targets {
+		for _, tg := range all {
 			if tg == nil {
 				continue
 			}
